@@ -53,8 +53,14 @@ def run(c, idx, base):
         shutil.rmtree(top)
     treelib.materialise(top, fill(c['tree']), c.get('order_seed', 0))
     argv = []
-    for kind, rel in c['roots']:
-        argv += [kind, os.path.join(top, *rel)]
+    mounts = []
+    for r in c['roots']:
+        kind, rel = r[0], r[1]
+        # a mount is sometimes spelled with a trailing separator
+        argv += [kind, os.path.join(top, *rel) + (os.sep if kind == '--package-path' and len(rel) % 2 else '')]
+        if kind == '--package-path':
+            argv.append(r[2])
+            mounts.append((r[2], os.path.join(top, *rel)))
     argv += c['flags']
     for pk in c.get('spkgs', []):
         argv += ['-s', pk]
@@ -72,40 +78,58 @@ def run(c, idx, base):
     res['mpats'] = list(options.module)
     # module-name oracle for every .py/.pyc file relative to every root
     mods = set()
-    for kind, rel in c['roots']:
-        rootp = tuple([c['topname']] + rel)
+    for rt in c['roots']:
+        rootp = tuple([c['topname']] + rt[1])
+        pre = rt[2] + '.' if rt[0] == '--package-path' else ''
         for p in treelib.all_files(c['tree'], (c['topname'],)):
             if p[:len(rootp)] == rootp:
                 r = list(p[len(rootp):])
                 for ext in ('.py', '.pyc'):
                     if r and r[-1].endswith(ext):
-                        mods.add('.'.join(r[:-1] + [r[-1][:-len(ext)]]))
+                        mods.add(pre + '.'.join(r[:-1] + [r[-1][:-len(ext)]]))
     pats = set(p[1:] if p.startswith('!') else p for p in options.module) | {'.'}
     res['mtab'] = [[p, m, re.compile(p).search(m) is not None] for p in sorted(pats) for m in sorted(mods)]
     if c['mode'] == 'direct':
         import types
         import zope.testrunner.find as F
         saved = F.import_name
-        if c.get('spkgs'):
-            # --package: test_dirs() imports the package and walks its __path__ entries that lie below a search path;
-            # the import is answered by a stand-in whose __path__ lists the package's directory under every root that has it
-            def fake_import(name, c=c, top=top):
-                m = types.ModuleType(name)
+        order = [x for x in c['roots'] if x[0] == '--test-path'] + [x for x in c['roots'] if x[0] == '--path']
+        names = []
+
+        def fake_import(name, c=c, top=top):
+            # test_dirs() (--package) imports the package and walks its __path__ entries that lie below a search path: answered
+            # by a stand-in whose __path__ lists the package's directory under every root that has it;
+            # find_suites imports the test modules: the name is recorded and a module with an empty test_suite is handed back
+            m = types.ModuleType(name)
+            if sys._getframe(1).f_code.co_name == 'test_dirs':
                 rel = name.split('.')
-                m.__path__ = [os.path.join(top, *(r[1] + rel)) for r in
-                              ([x for x in c['roots'] if x[0] == '--test-path'] + [x for x in c['roots'] if x[0] == '--path'])
-                              if os.path.isdir(os.path.join(top, *(r[1] + rel)))]
-                return m
-            F.import_name = fake_import
+                m.__path__ = [os.path.join(top, *(r[1] + rel)) for r in order if os.path.isdir(os.path.join(top, *(r[1] + rel)))]
+            else:
+                names.append(name)
+                m.test_suite = lambda: __import__('unittest').TestSuite()
+            return m
+        F.import_name = fake_import
         try:
-            found = [f for f, pkg in F.find_test_files(options)]
+            found = [(f, pkg) for f, pkg in F.find_test_files(options)]
+            from zope.testrunner.filter import build_filtering_func
+            for _ in F.find_suites(options, accept=build_filtering_func(options.module)):
+                pass
         finally:
             F.import_name = saved
-        res['found'] = [os.path.relpath(f, base).split(os.sep) for f in found]
+        res['found'] = [[os.path.relpath(f, base).split(os.sep), pkg] for f, pkg in found]
+        res['names'] = names
     else:
         trace = os.path.join(base, 'trace_%d' % idx)
         open(trace, 'w').close()
         env = dict(os.environ, VW_TRACE=trace)
+        if mounts:
+            # make the mounted directories importable under their package names (as the documented "knitting" does)
+            mdir = os.path.join(base, 'mounts_%d' % idx)
+            for pk, target in mounts:
+                os.makedirs(os.path.join(mdir, pk))
+                with open(os.path.join(mdir, pk, '__init__.py'), 'w') as f:
+                    f.write('__path__.append(%r)\n' % target)
+            env['PYTHONPATH'] = env.get('PYTHONPATH', '') + os.pathsep + mdir
         p = subprocess.run([sys.executable, '-m', 'zope.testrunner'] + argv + ['--list-tests'],
                            stdout=subprocess.PIPE, stderr=subprocess.STDOUT, cwd=base, timeout=120, env=env)
         res['imported'] = [os.path.relpath(l.strip(), base).split(os.sep) for l in open(trace) if l.strip()]
